@@ -44,7 +44,9 @@ type Block struct {
 	PRack  [][]string
 	Static bool
 	Ghost  bool
-	Prior  PriorMode
+	// GhostName: name (hence sorted position) of the nonexistent topic.
+	GhostName string
+	Prior     PriorMode
 	// Orders: 2 = every case with both count-map insertion orders, 1 = order
 	// 0 only, 0 = one order per case, alternating from case to case.
 	Orders int
@@ -71,7 +73,7 @@ func ownerCodes(n int, mode PriorMode) [][]int {
 // Each calls fn for every case of the block, reusing one Case value (Clone it
 // to keep it). It returns the number of cases.
 func (b *Block) Each(fn func(c *Case)) int64 {
-	c := &Case{N: b.N, Parts: b.Parts, Subs: b.Subs, MRack: b.MRack, PRack: b.PRack, Static: b.Static, Ghost: b.Ghost}
+	c := &Case{N: b.N, Parts: b.Parts, Subs: b.Subs, MRack: b.MRack, PRack: b.PRack, Static: b.Static, Ghost: b.Ghost, GhostName: b.GhostName}
 	nf := c.NumFlat()
 	// pcodes[f] = the owner sets flat partition f ranges over.
 	pcodes := make([][][]int, nf)
@@ -192,7 +194,7 @@ func PartConfigs(maxTopics int, maxPer int32, maxTotal int) [][]int32 {
 // topics. Base vectors give every member a non-empty subset of the existing
 // topics. With special, additionally every vector in which exactly one member
 // is special: subscribed to nothing, only to the nonexistent topic, or to the
-// first topic plus the nonexistent topic.
+// nonexistent topic plus any non-empty subset of the existing topics.
 func SubVectors(n, nt int, special bool) [][]uint8 {
 	base := make([]uint8, 0)
 	for m := 1; m < 1<<uint(nt); m++ {
@@ -206,8 +208,12 @@ func SubVectors(n, nt int, special bool) [][]uint8 {
 			return
 		}
 		if i == specialAt {
-			for _, s := range []uint8{0, GhostBit, 1 | GhostBit} {
-				rec(i+1, append(cur, s), specialAt)
+			// nothing; the nonexistent topic alone; the nonexistent topic
+			// together with every non-empty subset of the existing topics
+			rec(i+1, append(cur, 0), specialAt)
+			rec(i+1, append(cur, GhostBit), specialAt)
+			for _, s := range base {
+				rec(i+1, append(cur, s|GhostBit), specialAt)
 			}
 			return
 		}
@@ -260,6 +266,13 @@ func PartitionRackings(parts []int32, racks []string) [][][]string {
 	return out
 }
 
+// GhostNames are the names the nonexistent topic takes in the sticky special
+// sweep: member subscription lists reach the engine sorted (the client sorts,
+// NewConsumerBalancer sorts again), so the position of a nonexistent topic in
+// the list is decided by its name -- before every existing topic, between ta
+// and tb, after every existing topic.
+var GhostNames = []string{"t0", "taz", "tz"}
+
 // StickyBounds are the tier bounds of the sticky / cooperative-sticky sweeps
 // shared by C25 and C26.
 type StickyBounds struct {
@@ -304,8 +317,18 @@ func StickyBlocks(b StickyBounds) []Block {
 		for _, parts := range PartConfigs(2, 3, b.SpecialTotal) {
 			base := len(SubVectors(n, len(parts), false))
 			for _, subs := range SubVectors(n, len(parts), true)[base:] {
-				for _, ghost := range []bool{false, true} {
-					out = append(out, Block{Sweep: "special", N: n, Parts: parts, Subs: subs, Ghost: ghost, Prior: PriorSingle, Orders: b.Orders})
+				names := GhostNames
+				listsGhost := false
+				for _, sb := range subs {
+					listsGhost = listsGhost || sb&GhostBit != 0
+				}
+				if !listsGhost {
+					names = names[len(names)-1:]
+				}
+				for _, name := range names {
+					for _, ghost := range []bool{false, true} {
+						out = append(out, Block{Sweep: "special", N: n, Parts: parts, Subs: subs, Ghost: ghost, GhostName: name, Prior: PriorSingle, Orders: b.Orders})
+					}
 				}
 			}
 		}
